@@ -73,12 +73,15 @@ TREES = {
     "empty-dirs": {"e1/": None, "e2/inner/": None, "f.txt": b"x"},
     "nested": {"a/b/c/deep.bin": content(300, 1), "a/b/sib.txt": b"", "top": content(17000, 2)},
     "special-contents": {"z/nul-record": b"\0" * 16384, "z/data+nul": content(16384, 3) + b"\0" * 16384, "z/nul+data": b"\0" * 300 + b"x", "ff": b"\xff" * 70},
+    "unnormalised-names": {"re\u0301sume\u0301.txt": b"1", "\u212b/\u2126.bin": b"2", "\u1112\u1161\u11ab": b"3", "\ufb01le\uff0fx": b"4"},
     "odd-names": {"with space.txt": b"1", "uni-é中.txt": b"2", "-dash": b"3", ".hidden": b"4", "dir with space/-x": b"5",
                   "tab\tname": b"6"},
 }
 SIZES = [0, 1, 16383, 16384, 16385, 32768, 40000]
 TEXTS = ["hello", "it's", 'say "hi"', "both ' and \"", "back\\slash", "new\nline", "tab\t", "\x1b[31mred\x1b[0m", "bell\x07", "nul\x00",
-         "rtl‮evil", "café", "\U0001f600 emoji", " sep", "\x7f", "a" * 300, "\r\n", "\\x41", "'", '"', "\\'"]
+         "rtl‮evil", "café", "\U0001f600 emoji", " sep", "\x7f", "a" * 300, "\r\n", "\\x41", "'", '"', "\\'",
+         # not in any Unicode normal form's image: decomposed accents, singletons, conjoining jamo, compatibility characters
+         "Cafe\u0301", "\u212bngstro\u0308m \u2126", "\u1112\u1161\u11ab", "\ufb01 \uff0f \u2025", "e\u0301\u0323 vs e\u0323\u0301"]
 
 
 # "any content": byte patterns that a storage or transport shortcut could treat specially (runs of NUL up to and across the
